@@ -266,9 +266,21 @@ class CSSRuleRules(CSSRule):
             rule = tempsheet.cssRules[0]
 
         elif isinstance(rule, cssutils.css.CSSRuleList):
-            # insert all rules
-            for i, r in enumerate(rule):
-                self.insertRule(r, index + i)
+            # insert all rules or, if one of them is refused, none
+            oldrules = list(self._cssRules)
+            try:
+                for r in list(rule):
+                    before = len(self._cssRules)
+                    self.insertRule(r, index)
+                    index += len(self._cssRules) - before
+            except xml.dom.DOMException:
+                for r in self._cssRules:
+                    if not any(r is old for old in oldrules):
+                        r._parentRule = None
+                del self._cssRules[:]
+                for i, r in enumerate(oldrules):
+                    self._cssRules.insert(i, r)
+                raise
             return True, True
 
         elif not isinstance(rule, cssutils.css.CSSRule):
